@@ -50,6 +50,8 @@ func Run(r *core.Run) {
 		switch rec.Key["part"] {
 		case "erase":
 			replayErase(r, rec.Detail)
+		case "tsconfig":
+			replayTsconfig(r, rec.Detail)
 		default:
 			replayRuntime(r, fmt.Sprint(rec.Key["part"]), rec.Detail)
 		}
@@ -67,6 +69,10 @@ func Run(r *core.Run) {
 	if os.Getenv("C06_SKIP_RUNTIME") == "" {
 		wg.Add(1)
 		go func() { defer wg.Done(); runtimeBinding(r) }()
+	}
+	if os.Getenv("C06_SKIP_TSCONFIG") == "" {
+		wg.Add(1)
+		go func() { defer wg.Done(); tsconfigBinding(r) }()
 	}
 	wg.Wait()
 	if n := r.DriftCount(); n > 10 {
